@@ -1094,3 +1094,148 @@ def inline_straight_calls(idx, fi, only=None):
     ast.fix_missing_locations(node)
     set_parents(node)
     return View(fi, node), done
+
+
+# ------------------------------------------------------------------ filtered literal tables
+class _FoldIndex(ast.NodeTransformer):
+    """(a, b, c)[1] -> b"""
+    def visit_Subscript(self, node):
+        self.generic_visit(node)
+        if isinstance(node.value, (ast.Tuple, ast.List)) and isinstance(node.slice, ast.Constant) and isinstance(node.slice.value, int) \
+                and -len(node.value.elts) <= node.slice.value < len(node.value.elts) and isinstance(node.ctx, ast.Load):
+            return node.value.elts[node.slice.value]
+        return node
+
+
+def select_tables(fi):
+    """View in which a list `S = [row for row in T if cond(row)]` over a literal table T of tuples (both bound once, rows
+    call-pure and not invalidated before the uses) is read row by row: the truth value of S becomes `cond(R0) or cond(R1) ...`,
+    `S[-1]` the last and `S[0]` the first row that satisfies cond (as a conditional expression).  Other uses of S are left."""
+    from ..index import clone, set_parents, walk_own
+    node = clone(fi.node)
+    set_parents(node)
+    order = {}
+
+    def number(stmts):
+        for s_ in stmts:
+            order[id(s_)] = len(order)
+            for fld in ('body', 'orelse', 'finalbody'):
+                if isinstance(getattr(s_, fld, None), list):
+                    number(getattr(s_, fld))
+            for h in getattr(s_, 'handlers', []) or []:
+                number(h.body)
+    number(node.body)
+    assigns = {}
+    for s_ in walk_own(node):
+        if isinstance(s_, (ast.Assign, ast.AugAssign, ast.For, ast.Delete, ast.With)):
+            for n in assigned_names(s_):
+                assigns.setdefault(n, []).append(s_)
+    changed = False
+    for sname, defs in list(assigns.items()):
+        if len(defs) != 1 or not isinstance(defs[0], ast.Assign) or not isinstance(defs[0].value, ast.ListComp) or len(defs[0].targets) != 1 \
+                or not isinstance(defs[0].targets[0], ast.Name) or defs[0].targets[0].id != sname:
+            continue
+        comp = defs[0].value
+        if len(comp.generators) != 1 or len(comp.generators[0].ifs) != 1:
+            continue
+        g = comp.generators[0]
+        tbl, tdef = g.iter, defs[0]
+        if isinstance(tbl, ast.Name):
+            td = assigns.get(tbl.id, [])
+            if len(td) != 1 or not isinstance(td[0], ast.Assign) or len(td[0].targets) != 1 or not isinstance(td[0].targets[0], ast.Name):
+                continue
+            tbl, tdef = td[0].value, td[0]
+        if not isinstance(tbl, (ast.List, ast.Tuple)) or not tbl.elts or not all(isinstance(r_, ast.Tuple) for r_ in tbl.elts):
+            continue
+        if not (isinstance(comp.elt, ast.Name) and isinstance(g.target, ast.Name) and comp.elt.id == g.target.id):
+            continue
+        reads = {n.id for n in ast.walk(tbl) if isinstance(n, ast.Name)}
+        uses = [n for n in walk_own(node) if isinstance(n, ast.Name) and n.id == sname and isinstance(n.ctx, ast.Load)]
+        if not uses:
+            continue
+        last_use = max(order.get(id(_stmt_of(u)), 10 ** 9) for u in uses)
+        lo = order.get(id(tdef))
+        if lo is None or any(lo < order.get(id(a_), -1) <= last_use for n_ in reads for a_ in assigns.get(n_, [])):
+            continue
+        if any(isinstance(a_, (ast.For, ast.While)) for a_ in _Unroll._loops_around(node, tdef)):
+            continue
+        conds = [_FoldIndex().visit(nf.subst(clone(g.ifs[0]), {g.target.id: clone(r_)})) for r_ in tbl.elts]
+        rows = list(tbl.elts)
+
+        def pick(seq):
+            out = seq[-1][1]
+            for c_, r_ in reversed(seq[:-1]):
+                out = ast.IfExp(test=c_, body=r_, orelse=out)
+            return out
+        for u in uses:
+            par = parent(u)
+            new = None
+            if isinstance(par, ast.Subscript) and par.value is u and isinstance(par.slice, ast.Constant) and par.slice.value in (0, -1) \
+                    or (isinstance(par, ast.Subscript) and par.value is u and isinstance(par.slice, ast.UnaryOp) and isinstance(par.slice.op, ast.USub)
+                        and isinstance(par.slice.operand, ast.Constant) and par.slice.operand.value == 1):
+                first = isinstance(par.slice, ast.Constant) and par.slice.value == 0
+                seq = list(zip(conds, rows)) if first else list(zip(conds, rows))[::-1]
+                new, old = pick([(clone(c_), clone(r_)) for c_, r_ in seq]), par
+            elif isinstance(par, (ast.If, ast.While, ast.IfExp)) and par.test is u or (isinstance(par, ast.UnaryOp) and isinstance(par.op, ast.Not)) \
+                    or (isinstance(par, ast.BoolOp)):
+                new, old = ast.BoolOp(op=ast.Or(), values=[clone(c_) for c_ in conds]) if len(conds) > 1 else clone(conds[0]), u
+            if new is None:
+                continue
+            gp = parent(old)
+            for f_, v_ in ast.iter_fields(gp):
+                if v_ is old:
+                    setattr(gp, f_, new)
+                    changed = True
+                elif isinstance(v_, list):
+                    for i_, x_ in enumerate(v_):
+                        if x_ is old:
+                            v_[i_] = new
+                            changed = True
+    if not changed:
+        return fi
+    ast.fix_missing_locations(node)
+    set_parents(node)
+    return View(fi, node)
+
+
+def _stmt_of(node):
+    while node is not None and not isinstance(node, ast.stmt):
+        node = parent(node)
+    return node
+
+
+# ------------------------------------------------------------------ lookups in constant tables
+def expand_table_lookups(fi, resolve):
+    """View in which `T = TABLE[k]` (TABLE resolved by `resolve(expr)` to a dict display with constant keys, k a plain name)
+    is read as the chain `if k == key0: T = value0 elif ... else: raise KeyError(k)`."""
+    from ..index import clone, set_parents
+    node = clone(fi.node)
+    changed = [False]
+
+    def rewrite(stmts):
+        out = []
+        for st in stmts:
+            for fld in ('body', 'orelse', 'finalbody'):
+                if isinstance(getattr(st, fld, None), list) and not isinstance(st, (ast.FunctionDef, ast.ClassDef)):
+                    setattr(st, fld, rewrite(getattr(st, fld)))
+            if isinstance(st, ast.Assign) and len(st.targets) == 1 and isinstance(st.value, ast.Subscript) and isinstance(st.value.slice, ast.Name):
+                tbl = resolve(st.value.value)
+                if isinstance(tbl, ast.Dict) and tbl.keys and all(isinstance(k, ast.Constant) for k in tbl.keys):
+                    k = st.value.slice
+                    chain = [ast.copy_location(ast.Raise(exc=ast.Call(func=ast.Name(id='KeyError', ctx=ast.Load()), args=[clone(k)], keywords=[]),
+                                                         cause=None), st)]
+                    for key, val in reversed(list(zip(tbl.keys, tbl.values))):
+                        test = ast.Compare(left=clone(k), ops=[ast.Eq()], comparators=[clone(key)])
+                        chain = [ast.copy_location(ast.If(test=test, body=[ast.copy_location(
+                            ast.Assign(targets=[clone(st.targets[0])], value=clone(val)), st)], orelse=chain), st)]
+                    out.extend(chain)
+                    changed[0] = True
+                    continue
+            out.append(st)
+        return out
+    node.body = rewrite(node.body)
+    if not changed[0]:
+        return fi
+    ast.fix_missing_locations(node)
+    set_parents(node)
+    return View(fi, node)
